@@ -88,6 +88,8 @@ def sym_eq(it, a, b):
     if contains_sym(a, 1) or contains_sym(b, 1):
         if type(a) is not type(b):
             return False
+        if isinstance(a, (dict, list, tuple, set)) and len(a) != len(b):
+            return False  # containers have concrete structure: different sizes differ
         raise Unsupported(f"== on {type(a).__name__} holding symbolic data")
     return it.nat(lambda: a == b)
 
@@ -1096,6 +1098,18 @@ def m_print(it, args, kwargs):
     return None
 
 
+def m_sum(it, args, kwargs):
+    items = list(_lazy(it, args[0])) if isinstance(args[0], types.GeneratorType) \
+        else it.iterate(args[0])
+    start = args[1] if len(args) > 1 else kwargs.get("start", 0)
+    if not any(is_sym(x) for x in items) and not is_sym(start):
+        return it.nat(lambda: sum(items, start))
+    acc = start
+    for x in items:
+        acc = binop(it, ast.Add(), acc, x) if is_sym(acc) or is_sym(x) else acc + x
+    return acc
+
+
 def m_format(it, args, kwargs):
     if contains_sym(args, 2):
         return Opaque()
@@ -1107,7 +1121,7 @@ BUILTINS = {
     type: m_type, getattr: m_getattr, setattr: m_setattr, hasattr: m_hasattr, max: m_max,
     min: m_min, all: m_all, any: m_any, next: m_next, list: m_list, tuple: m_tuple, dict: m_dict,
     sorted: m_sorted, range: m_range, enumerate: m_enumerate, zip: m_zip, repr: m_repr, bytearray: m_bytearray,
-    abs: m_abs, divmod: m_divmod, round: m_round, callable: m_callable, id: m_id, print: m_print, format: m_format,
+    abs: m_abs, divmod: m_divmod, round: m_round, callable: m_callable, id: m_id, print: m_print, format: m_format, sum: m_sum,
     binascii.unhexlify: m_unhexlify, binascii.hexlify: m_hexlify,
     struct.unpack: m_struct_unpack, struct.pack: m_struct_pack,
 }
